@@ -5,7 +5,7 @@ use crate::pool::Worker;
 use crate::run::{RunOpts, DEFAULT_BUDGET};
 use crate::semfam::record;
 use crate::Args;
-use serde_json::json;
+use serde_json::{json, Value};
 use std::io::Write;
 use std::time::Duration;
 
@@ -27,6 +27,9 @@ pub fn fillers(in_loop: bool, in_fn: bool) -> Vec<(&'static str, Vec<Stmt>)> {
         ("leeg-blok", vec![Stmt::Block(vec![])]),
         ("blok", vec![Stmt::Block(vec![acc_add(3), Stmt::Block(vec![])])]),
         ("waarde", vec![Stmt::Expr(id("acc"))]),
+        // a nested block that ends in an expression: its value is the value of the enclosing block
+        ("blok-waarde", vec![Stmt::Block(vec![Stmt::Let("t".into(), infix("+", id("acc"), Expr::Int(3))), Stmt::Expr(infix("*", id("t"), Expr::Int(2)))])]),
+        ("blok-in-blok-waarde", vec![acc_add(1), Stmt::Block(vec![Stmt::Block(vec![Stmt::Expr(infix("+", id("acc"), Expr::Int(40)))])])]),
         ("als-expr", vec![if_stmt(cond_even("acc"), vec![acc_add(10)], None)]),
         ("als-leeg", vec![if_stmt(cond_even("acc"), vec![], Some(vec![acc_add(5)]))]),
     ];
@@ -322,5 +325,34 @@ pub fn gen_templates(args: &Args) {
         writeln!(f, "{}", rec).unwrap();
         writeln!(src, "{}", json!({"id":id,"text":text})).unwrap();
         id += 1;
+    }
+}
+
+/// C12: recursion far beyond what the reference semantics is run for, stated as laws
+/// (programs that must evaluate to ja): closed forms of deep recursive sums, and the
+/// requirement that exceeding the machine's 16-bit stack index is an error, not a wrong answer.
+pub fn gen_deep_laws(args: &Args) {
+    let out = args.get("out", "/dev/stdout");
+    let first_id = args.num("first-id", 1);
+    let mut f = std::fs::File::create(&out).expect("create out");
+    let mut w = Worker::spawn(Duration::from_secs(60));
+    let opts = RunOpts { budget: Some(20_000_000), ..Default::default() };
+    let mut id = first_id;
+    let base: Value = json!({"class":"Value","val":{"t":"B","v":true},"out":[]});
+    let mut emit = |text: String, kind: &str, w: &mut Worker| {
+        let r = w.eval(&text, &opts);
+        writeln!(f, "{}", json!({"id":id,"kind":kind,"vdef":true,"base":base,"var":r["obs"],"base_text":"ja","var_text":text})).unwrap();
+        id += 1;
+    };
+    for depth in [300i64, 1000, 5000, 12000, 16000] {
+        // 4 stack slots per activation (n, two locals, and the pending operand of the addition)
+        emit(format!("functie som(n) {{ als n == 0 {{ antwoord 0 }}; stel hier = n * 2; stel half = hier / 2; half + som(n - 1) }}; som({depth}) == {}", depth * (depth + 1) / 2), "yields-ja", &mut w);
+        emit(format!("functie tel(n, acc) {{ als n == 0 {{ antwoord acc }}; tel(n - 1, acc + 1) }}; tel({depth}, 0) == {depth}"), "yields-ja", &mut w);
+        // the caller's own locals survive a deep excursion
+        emit(format!("functie diep(n) {{ als n == 0 {{ antwoord 1 }}; diep(n - 1) }}; functie buiten(a, b) {{ stel c = a * b; stel d = diep({depth}); a == 7 && b == 9 && c == 63 && d == 1 }}; buiten(7, 9)"), "yields-ja", &mut w);
+    }
+    // beyond the limit (more than 65 535 live slots): any error, never a value
+    for depth in [25000i64, 40000, 70000] {
+        emit(format!("functie som(n) {{ als n == 0 {{ antwoord 0 }}; stel hier = n * 2; stel half = hier / 2; half + som(n - 1) }}; som({depth})"), "must-fail", &mut w);
     }
 }
